@@ -579,9 +579,10 @@ def s_static_cast_inputs(_ctx):
 
         def __repr__(self):
             return self.name
-    # (op, operands) with L = castable literal, T = tensor value, N = omitted input; expected: index of the sibling each literal is cast like (or None)
+    # (op, operands) with L = castable literal, T = tensor value, N = omitted input; expected: index of the sibling each literal is cast like
+    # (a tuple when several typed siblings share the type variable: the property asks for THE TYPE of such a sibling, any of them will do)
     cases = [("Add", "TL", {1: 0}), ("Add", "LT", {0: 1}), ("Add", "LL", {}), ("Add", "TT", {}), ("Where", "TTL", {2: 1}), ("Where", "TLT", {1: 2}),
-             ("Where", "LTT", {}), ("Clip", "TLL", {1: 0, 2: 0}), ("Clip", "TNL", {2: 0}), ("Gather", "TL", {}), ("Pow", "TL", {}), ("Concat", "TLT", {1: 2}),
+             ("Where", "LTT", {}), ("Clip", "TLL", {1: 0, 2: 0}), ("Clip", "TNL", {2: 0}), ("Gather", "TL", {}), ("Pow", "TL", {}), ("Concat", "TLT", {1: (0, 2)}),
              ("Max", "TLL", {1: 0, 2: 0})]
     n = 0
     for op_name, shape, want in cases:
@@ -607,9 +608,10 @@ def s_static_cast_inputs(_ctx):
             for i, (a, r) in enumerate(zip(args, res)):
                 if i in want:
                     e = [x for x in emitted if x[2] is r]
-                    good = len(e) == 1 and e[0][0] == "CastLike" and e[0][1] == [a, args[want[i]]]
+                    sibs = want[i] if isinstance(want[i], tuple) else (want[i],)
+                    good = len(e) == 1 and e[0][0] == "CastLike" and len(e[0][1]) == 2 and e[0][1][0] is a and any(e[0][1][1] is args[j] for j in sibs)
                     if not good:
-                        detail.append(f"operand {i} ({a}) should be CastLike({a}, {args[want[i]]}) but is {r} {e}")
+                        detail.append(f"operand {i} ({a}) should be CastLike({a}, {' or '.join(str(args[j]) for j in sibs)}) but is {r} {e}")
                     ok = ok and good
                 else:
                     if r is not a:
